@@ -36,14 +36,14 @@ def norm(v):
 
 def main():
     stats = {"equal": 0, "gap": 0, "abstract": 0, "MISMATCH": 0, "documented": 0}
-    for modname in ("interp_corpus", "interp_corpus2"):
+    for modname in ("interp_corpus", "interp_corpus2", "interp_corpus3"):
         path = os.path.join(HERE, "tools", modname + ".py")
         spec = importlib.util.spec_from_file_location(modname, path)
         mod = importlib.util.module_from_spec(spec)
         sys.modules[modname] = mod
         spec.loader.exec_module(mod)
         repo = Repo({modname: (path, open(path).read())}, {}, os.path.dirname(path))
-        for k in sorted(n for n in dir(mod) if n[:2] in ("t0", "u0") and callable(getattr(mod, n))):
+        for k in sorted(n for n in dir(mod) if n[:2] in ("t0", "u0", "v0") and callable(getattr(mod, n))):
             want = getattr(mod, k)()
             try:
                 out = Interp(repo, {}, {}, max_steps=200000).run(f"{modname}.{k}", [])
